@@ -19,7 +19,15 @@
 EXTENDS Dag, Integers
 
 ERR == -1                      \* "resolution failed / exception" where a revision is expected
-Anc0(P, r) == IF r = Null THEN {} ELSE Ancestry(P, r)
+(* Ancestry by fixpoint iteration: same meaning as Dag!Ancestry / AncestryG / Heads / CommonAncestors / MergedBy (checked
+   by HistoryC21Gen!FastAgreesWithDag), an order of magnitude cheaper for TLC to evaluate than the recursive function. *)
+RECURSIVE CloseG(_, _)
+CloseG(P, S) == LET N == S \cup UNION {ParentSet(P, x) : x \in S} IN IF N = S THEN S ELSE CloseG(P, N)
+AncG(P, r) == IF r = Null THEN {} ELSE CloseG(P, {r})                 \* with the ghosts that are reached
+Anc0(P, r) == AncG(P, r) \cap DOMAIN P                                \* {} for Null and for ghosts
+HeadsF(P, S) == LET T == IF S = {Null} THEN S ELSE S \ {Null} IN {x \in T : \A y \in T \ {x} : x \notin AncG(P, y)}
+CommonAnc(P, a, b) == Anc0(P, a) \cap Anc0(P, b)
+MergedByF(P, m) == Anc0(P, m) \ ({m} \cup Anc0(P, LeftParent(P, m)))
 LeftSet(P, r) == SeqRange(LeftHand(P, r))          \* LeftHand(P, Null) = <<>>
 RevnoOf(P, r) == Len(LeftHand(P, r))               \* 0 for the null revision
 IsAnc0(P, a, d) == a = Null \/ a \in Anc0(P, d)    \* graph.is_ancestor: null: is an ancestor of everything
@@ -46,7 +54,7 @@ SetLast(P, t, ao, r) ==
 
 \* Branch._revision_relations(a, b): via graph.heads
 Relation(P, a, b) ==
-    LET h == Heads(P, {a, b})
+    LET h == HeadsF(P, {a, b})
     IN IF h = {b} THEN "b_descends_from_a" ELSE IF h = {a, b} THEN "diverged" ELSE "a_descends_from_b"
 
 \* GenericInterBranch._update_revisions(stop_revision, overwrite): fetch, classify, set the tip
@@ -146,14 +154,14 @@ Present(P, r) == r \in DOMAIN P
 \* first (oldest) mainline revision that has r in its ancestry: graph.find_lefthand_merger
 FirstMerger(P, tip, r) ==
     LET lh == LeftHand(P, tip)
-        I == {i \in DOMAIN lh : r \in Ancestry(P, lh[i])}
+        I == {i \in DOMAIN lh : r \in Anc0(P, lh[i])}
     IN IF I = {} THEN ERR ELSE lh[SetMin(I)]
 
 \* graph.find_unique_lca: LCAs, then LCAs of those, ... until unique; Null when nothing is in common
 RECURSIVE UniqueLcaOf(_, _)
 UniqueLcaOf(P, S) ==
-    LET common == {x \in DOMAIN P : \A y \in S : x \in Ancestry(P, y)}
-        l == Heads(P, common)
+    LET common == {x \in DOMAIN P : \A y \in S : x \in Anc0(P, y)}
+        l == HeadsF(P, common)
     IN IF common = {} THEN Null ELSE IF Cardinality(l) = 1 THEN CHOOSE x \in l : TRUE ELSE UniqueLcaOf(P, l)
 
 \* the revision a simple specifier denotes (ERR if none)
@@ -175,8 +183,8 @@ Meaning(P, tip, sp) ==
       [] sp.k = "mainline" -> IF Present(P, sp.a) THEN {FirstMerger(P, tip, sp.a)}
                               ELSE {ERR} \cup {FirstMerger(P, tip, x) : x \in {y \in Anc0(P, tip) : sp.a \in ParentSet(P, y)}}
       [] sp.k = "ancestor" ->
-            LET ca == CommonAncestors(P, tip, sp.a)
-                l == Heads(P, ca)
+            LET ca == CommonAnc(P, tip, sp.a)
+                l == HeadsF(P, ca)
             IN IF sp.a = Null \/ ca = {} THEN {ERR}
                ELSE IF Cardinality(l) = 1 THEN l
                ELSE ca \cup (IF UniqueLcaOf(P, {tip, sp.a}) = Null THEN {ERR} ELSE {})
@@ -285,7 +293,7 @@ Shallow(rows, levels) == IF levels = 0 THEN rows ELSE SelectSeq(rows, LAMBDA x :
 MainlineRows(P, tip, a, b) == [i \in 1..(b - a + 1) |-> Row(LeftHand(P, tip)[b - i + 1], <<b - i + 1>>, 0)]   \* newest first
 \* what the mainline range a..b denotes with merged revisions: those revisions and everything they merged
 RangeRevs(P, tip, a, b) ==
-    LET lh == LeftHand(P, tip) IN Ancestry(P, lh[b]) \ (IF a = 1 THEN {} ELSE Ancestry(P, lh[a - 1]))
+    LET lh == LeftHand(P, tip) IN Anc0(P, lh[b]) \ (IF a = 1 THEN {} ELSE Anc0(P, lh[a - 1]))
 
 (* A request q = [dir ("reverse" | "forward"), levels, limit (0 = none), a, b (mainline revno range, 0 0 = none),
    file (0 = none, else index into the case's files), deltas (match files using deltas)].
@@ -370,7 +378,7 @@ VerUpTo(P, T, n) ==        \* <<ver[1..n], forced subset of 1..n>>
     ELSE LET prev == VerUpTo(P, T, n - 1)
              v == prev[1]
              pv == {v[p] : p \in ParentSet(P, n) \cap (1..(n - 1))} \ {Null}
-             h == Heads(P, pv)
+             h == HeadsF(P, pv)
          IN IF n \in T THEN <<Append(v, n), prev[2]>>
             ELSE IF pv = {} THEN <<Append(v, Null), prev[2]>>
             ELSE IF Cardinality(h) = 1 THEN <<Append(v, CHOOSE x \in h : TRUE), prev[2]>>
